@@ -114,7 +114,7 @@ func newEvalCtx(j CtxJ) *evalCtx {
 // scratch files for {load}
 
 type scratchPaths struct {
-	dir, file, missing string
+	dir, file, missing, funcs string
 }
 
 var (
@@ -132,7 +132,9 @@ func scratch() scratchPaths {
 		os.MkdirAll(dir, 0o755)
 		f := filepath.Join(dir, "table.txt")
 		os.WriteFile(f, []byte(loadFileContent), 0o644)
-		scratchVal = scratchPaths{dir: dir, file: f, missing: filepath.Join(dir, "no-such-file.txt")}
+		ff := filepath.Join(base, "c08.funcs")
+		os.WriteFile(ff, []byte(userFuncsFile), 0o644)
+		scratchVal = scratchPaths{dir: dir, file: f, missing: filepath.Join(dir, "no-such-file.txt"), funcs: ff}
 	})
 	return scratchVal
 }
@@ -163,6 +165,29 @@ func setGlobals(c Case) {
 	termunicode.UnicodeEnabled = !c.NoUnicode
 	humanize.Enabled = !c.NoHumanize
 	humanize.Decimals = 4
+}
+
+// builders are made once: a KeyBuilder is only a function table (filling it
+// 4 times per case cost a quarter of the run), Compile does not change it.
+var builders [2][2]*expressions.KeyBuilder
+
+func builderFor(guarded, opt bool) *expressions.KeyBuilder {
+	gi, oi := 0, 0
+	if guarded {
+		gi = 1
+	}
+	if opt {
+		oi = 1
+	}
+	if builders[gi][oi] == nil {
+		if guarded {
+			builders[gi][oi] = newGuardedBuilder(opt)
+		} else {
+			builders[gi][oi] = funclib.NewKeyBuilderEx(opt)
+			addUserFunctions(builders[gi][oi], false)
+		}
+	}
+	return builders[gi][oi]
 }
 
 type compiler interface {
@@ -212,6 +237,8 @@ func runTable(table string, opt bool, b compiler, tmpl string, c Case, productio
 		if err := pbt.Guard(func() error { out = kb.BuildKey(kctx); return nil }); err != nil {
 			return fmt.Errorf("BuildKey panicked %s context #%d groups=%s keys=%s: %v", where, i, qs(cj.Groups), qkv(cj.Keys), err)
 		}
+		outs := &lastOutputs[b2i(production)][b2i(opt)]
+		*outs = append(*outs, out)
 		if c.Obs != nil {
 			c.Obs.Add("hits", ec.hits)
 			c.Obs.Add("lookups", ec.lookups)
@@ -261,7 +288,7 @@ func qkv(l []KVJ) string {
 // an evaluation that is merely slow: they only fire for a loop that does not
 // end (with or without allocating).
 const (
-	caseHeapLimit = 3 << 30 // bytes of heap growth
+	caseHeapLimit = 768 << 20 // bytes of heap growth (an honest case stays below ~20 MiB)
 	caseTimeLimit = 60 * time.Second
 )
 
@@ -272,8 +299,22 @@ func check(c Case) error {
 	if c.Obs == nil {
 		c.Obs = pbt.NewObs() // replayed case
 	}
+	t0 := time.Now()
+	err := monitored(string(c.Template), caseHeapLimit, caseTimeLimit, func() error { return checkCase(c) })
+	if d := time.Since(t0); err == nil && d > 500*time.Millisecond {
+		// evidence only (how far honest cases are from the limits); never a verdict
+		c.Obs.Label(true, "took>0.5s")
+		c.Obs.Label(d > 5*time.Second, "took>5s")
+		if os.Getenv("C08_SHOW_SLOW") != "" {
+			fmt.Printf("C08-SLOW %v %s\n", d, q(string(c.Template)))
+		}
+	}
+	return err
+}
+
+func monitored(what string, heapLimit uint64, timeLimit time.Duration, f func() error) error {
 	done := make(chan error, 1)
-	go func() { done <- pbt.Guard(func() error { return checkCase(c) }) }()
+	go func() { done <- pbt.Guard(f) }()
 	// fast path: nearly every case is done within a millisecond
 	first := time.NewTimer(40 * time.Millisecond)
 	select {
@@ -294,13 +335,13 @@ func check(c Case) error {
 			return err
 		case <-tick.C:
 			runtime.ReadMemStats(&ms)
-			if ms.HeapAlloc > base && ms.HeapAlloc-base > caseHeapLimit {
-				fmt.Printf("C08: case allocated %d MiB in %v and is still running: %s\n", (ms.HeapAlloc-base)>>20, time.Since(start), q(string(c.Template)))
-				hung.Store(true)
+			if ms.HeapAlloc > base && ms.HeapAlloc-base > heapLimit {
+				fmt.Printf("C08: case allocated %d MiB in %v and is still running: %s\n", (ms.HeapAlloc-base)>>20, time.Since(start), q(what))
+				abandon()
 				return pbt.ErrHang{After: time.Since(start)}
 			}
-			if time.Since(start) > caseTimeLimit {
-				hung.Store(true)
+			if time.Since(start) > timeLimit {
+				abandon()
 				return pbt.ErrHang{After: time.Since(start)}
 			}
 		}
@@ -315,8 +356,13 @@ func checkCase(c Case) error {
 	defer setGlobals(Case{})
 	resetBudget()
 	seenCalls = seenCalls[:0]
+	for i := range lastOutputs {
+		for j := range lastOutputs[i] {
+			lastOutputs[i][j] = lastOutputs[i][j][:0]
+		}
+	}
 	for _, opt := range []bool{false, true} {
-		if err := runTable("guarded", opt, newGuardedBuilder(opt), tmpl, c, false); err != nil {
+		if err := runTable("guarded", opt, builderFor(true, opt), tmpl, c, false); err != nil {
 			return err
 		}
 	}
@@ -333,17 +379,61 @@ func checkCase(c Case) error {
 		return nil
 	}
 	for _, opt := range []bool{false, true} {
-		if err := runTable("production", opt, funclib.NewKeyBuilderEx(opt), tmpl, c, true); err != nil {
+		if err := runTable("production", opt, builderFor(false, opt), tmpl, c, true); err != nil {
 			return err
 		}
 	}
 	c.Obs.Label(true, "production-run")
+	// diagnostic only (no verdict): the guarded table is meant to be
+	// transparent while nothing is clamped; the clock-reading helpers aside,
+	// both tables must have produced the same texts
+	same := true
+	for oi := range lastOutputs[0] {
+		g, p := lastOutputs[0][oi], lastOutputs[1][oi]
+		if len(g) != len(p) {
+			same = false
+			continue
+		}
+		for i := range g {
+			if g[i] != p[i] {
+				same = false
+			}
+		}
+	}
+	if !same && !strings.Contains(tmpl, "time") {
+		c.Obs.Label(true, "DIAG:guarded-and-production-output-differ")
+	}
 	return nil
+}
+
+var lastOutputs [2][2][]string
+
+func b2i(b bool) int {
+	if b {
+		return 1
+	}
+	return 0
 }
 
 // hung is set when a case was abandoned while still running: its Obs is then
 // still being written to and must not be read.
 var hung atomic.Bool
+
+// abandon marks the running case as non-terminating. The goroutine stuck in
+// rare cannot be stopped and may be allocating without bound, so the process
+// must not go on to the next test function: pbt.Run leaves at once on ErrHang;
+// for the enumerations (pbt.Enum records the failure and returns) the process
+// is ended here shortly after the failure has been written out.
+func abandon() {
+	if hung.Swap(true) {
+		return
+	}
+	go func() {
+		time.Sleep(4 * time.Second)
+		fmt.Println("C08: leaving, a case did not terminate (see the failure recorded above)")
+		os.Exit(7)
+	}()
+}
 
 func classify(c Case) (bool, []string) {
 	if hung.Load() {
@@ -393,7 +483,7 @@ func classifyValue(l *pbt.Labels, v string) {
 	l.Add(strings.Contains(v, "\x00"), "ctx:nul")
 	l.Add(!validUTF8(v), "ctx:non-utf8")
 	l.Add(len(v) >= 300, "ctx:long")
-	l.Add(len(v) >= 65536, "ctx:>64KiB")
+	l.Add(len(v) >= 20000, "ctx:>=20000B")
 	if n, err := strconv.ParseInt(v, 10, 64); err == nil {
 		l.Add(n == 0, "ctx:zero")
 		l.Add(n < 0, "ctx:negative-int")
@@ -610,7 +700,7 @@ func TestSweep(t *testing.T) {
 func TestFixed(t *testing.T) {
 	sp := specGrammar
 	sp.Name = "fixed"
-	sp.Rule = "bounded-exhaustive: every expression of rare's own tests and docs and every crash input known when the check was written (seeds_test.go) x 20 fixed contexts (empty, zeros, -1, MaxInt64/MinInt64, 2^62, >int64, floats/NaN/Inf, NUL lists, non-UTF-8, dates, JSON, format verbs, durations) x {load enabled, disabled}; plus the @for iteration cap. " + ruleOracle + "Non-trivial: as grammar"
+	sp.Rule = "bounded-exhaustive: every expression of rare's own tests and docs and every crash input known when the check was written (seeds_test.go) x 20 fixed contexts (empty, zeros, -1, MaxInt64/MinInt64, 2^62, >int64, floats/NaN/Inf, NUL lists, non-UTF-8, dates, JSON, format verbs, durations) x {load enabled, disabled}. " + ruleOracle + "Non-trivial: as grammar"
 	pbt.Enum(t, sp, func(yield func(Case) bool) {
 		for _, s := range seedTemplates {
 			for i, fc := range fixedContexts {
@@ -622,28 +712,48 @@ func TestFixed(t *testing.T) {
 			}
 		}
 	})
-	// the @for cap itself (10^6 iterations by design; production table only,
-	// the guarded table would stop it early)
-	if k, _ := pbt.Shard(); k == 0 && os.Getenv("VERIF_REPLAY") == "" {
-		for _, tmpl := range []string{"{@for 0 1 0}", "{@for {0} {1} {0}}"} {
-			err := pbt.WithWatchdog(120*time.Second, func() error {
-				setGlobals(Case{})
-				c := Case{Template: pbt.S(tmpl), Obs: pbt.NewObs(), Contexts: []CtxJ{{Groups: pbt.SS([]string{"x", "1"})}}}
-				for _, opt := range []bool{false, true} {
-					if err := runTable("production", opt, funclib.NewKeyBuilderEx(opt), tmpl, c, true); err != nil {
-						return err
-					}
+}
+
+// TestForCap: the @for iteration cap itself (10^6 iterations by design). The
+// guarded table would stop the loop early, so these run on the production
+// table only: 10^6 iterations of a short element are a few MB and well under a
+// second of work, so the limits again only fire for a loop without end.
+func TestForCap(t *testing.T) {
+	sp := specGrammar
+	sp.Name = "forcap"
+	sp.Rule = "bounded-exhaustive: @for with a condition that never turns false ({@for 0 1 0}, {@for {0} {1} {0}} on x,1, {@for {0} {k} {0}} ...), production table, optimised and plain: must return (the documented 1 000 000-iteration cap, marker <INF>) under the heap/time monitor. Non-trivial: all"
+	sp.Check = func(c Case) error {
+		if c.Obs == nil {
+			c.Obs = pbt.NewObs()
+		}
+		tmpl := string(c.Template)
+		return monitored(tmpl, caseHeapLimit, 2*caseTimeLimit, func() error {
+			setGlobals(Case{})
+			for _, opt := range []bool{false, true} {
+				if err := runTable("production", opt, builderFor(false, opt), tmpl, c, true); err != nil {
+					return err
 				}
-				if !c.Obs.Has("marker:INF") {
-					return fmt.Errorf("%s: expected the documented <INF> cap marker", tmpl)
-				}
-				return nil
-			})
-			if err != nil {
-				t.Fatalf("@for cap: %v", err)
+			}
+			if !c.Obs.Has("marker:INF") {
+				return fmt.Errorf("%s: expected the documented <INF> cap marker", tmpl)
+			}
+			return nil
+		})
+	}
+	sp.Classify = func(c Case) (bool, []string) {
+		if hung.Load() {
+			return false, nil
+		}
+		return true, c.Obs.All()
+	}
+	pbt.Enum(t, sp, func(yield func(Case) bool) {
+		for _, tmpl := range []string{"{@for 0 1 0}", "{@for {0} {1} {0}}", "{@for {0} {k} {1}}", "{@for 0 {not {2}} {sumi {0} 1}}"} {
+			c := Case{Template: pbt.S(tmpl), Obs: pbt.NewObs(), Contexts: []CtxJ{{Groups: pbt.SS([]string{"x", "1"}), Keys: []KVJ{{"k", "yes"}}}}}
+			if !yield(c) {
+				return
 			}
 		}
-	}
+	})
 }
 
 // ---------------------------------------------------------------------------
@@ -674,6 +784,22 @@ func runCLI(bin string, args []string, stdin string) (stderr string, code int, e
 	return eb.String(), code, nil
 }
 
+// libraryFirst runs the library oracle on the very match data the tool is
+// going to build (the tool numbers groups differently and adds its special
+// keys, so a value may reach another argument than in the generated case). It
+// reports whether the tool run may follow: no violation and nothing clamped.
+func libraryFirst(c Case, ctxs []CtxJ) (bool, error) {
+	c2 := c
+	c2.Contexts = ctxs
+	c2.Obs = pbt.NewObs()
+	if err := check(c2); err != nil {
+		return false, err
+	}
+	return !c2.Obs.Has("clamped(production-run-skipped)"), nil
+}
+
+func hasComma(s string) bool { return strings.Contains(s, ",") }
+
 func checkCLI(c Case) error {
 	if err := check(c); err != nil {
 		return err
@@ -682,16 +808,12 @@ func checkCLI(c Case) error {
 	if bin == "" {
 		return nil
 	}
-	if c.Obs.Has("clamped(production-run-skipped)") {
-		pbt.Exclude("cli:size-request-beyond-budget")
-		return nil
-	}
 	tmpl := substitute(string(c.Template))
 	if !cliSafe(tmpl) || tmpl == "" || strings.HasPrefix(tmpl, "-") || len(tmpl) > 20000 {
 		pbt.Exclude("cli:template-not-an-argv-string")
 		return nil
 	}
-	global := []string{}
+	global := []string{"--funcs", scratch().funcs}
 	if c.NoLoad {
 		global = append(global, "--noload")
 	}
@@ -706,51 +828,85 @@ func checkCLI(c Case) error {
 	if c.NoHumanize {
 		global = append(global, "--noformat")
 	}
-	// 1. rare expression, first context
+	// 1. rare expression, first context. -d/-k values are split at commas by
+	// the flag parser and cannot hold NUL: such data is left out.
 	if len(c.Contexts) > 0 {
+		c0 := c.Contexts[0]
 		args := append(append([]string{}, global...), "expression")
 		if len(tmpl)%2 == 1 {
 			args = append(args, "--no-optimize")
 		}
 		ok := true
-		for _, gv := range c.Contexts[0].Groups {
-			if !cliSafe(string(gv)) || len(gv) > 20000 {
+		for _, gv := range c0.Groups {
+			if !cliSafe(string(gv)) || hasComma(string(gv)) || len(gv) > 20000 {
 				ok = false
 			}
 			args = append(args, "-d", string(gv))
 		}
-		for _, kv := range c.Contexts[0].Keys {
-			if !cliSafe(string(kv.K)) || !cliSafe(string(kv.V)) || len(kv.V) > 20000 {
+		tool := CtxJ{Groups: c0.Groups}
+		for _, kv := range c0.Keys {
+			if !cliSafe(string(kv.K)) || !cliSafe(string(kv.V)) || hasComma(string(kv.K)) || hasComma(string(kv.V)) || strings.Contains(string(kv.K), "=") || len(kv.V) > 20000 {
 				ok = false
+			}
+			switch string(kv.K) {
+			case "src", "line", ".", "#", ".#", "#.", "@": // overwritten by the tool
+			default:
+				tool.Keys = append(tool.Keys, kv)
 			}
 			args = append(args, "-k", string(kv.K)+"="+string(kv.V))
 		}
 		args = append(args, tmpl)
 		if ok {
-			stderr, code, err := runCLI(bin, args, "")
+			// the special keys `rare expression` emulates
+			tool.Keys = append(tool.Keys, KVJ{"src", "<args>"}, KVJ{"line", "0"}, KVJ{".", "{}"}, KVJ{"#", "{}"}, KVJ{".#", "{}"}, KVJ{"#.", "{}"},
+				KVJ{"@", pbt.S(strings.Join(pbt.Strs(c0.Groups), "\x00"))})
+			run, err := libraryFirst(c, []CtxJ{tool})
 			if err != nil {
-				return fmt.Errorf("rare expression %s: %v", q(tmpl), err)
+				return err
 			}
-			if crashRe.MatchString(stderr) {
-				return fmt.Errorf("rare expression crashed (exit %d) on template %s data %s:\n%s", code, q(tmpl), qs(c.Contexts[0].Groups), pbt.Trunc(stderr, 1500))
+			if run {
+				stderr, code, err := runCLI(bin, args, "")
+				if err != nil {
+					return fmt.Errorf("rare expression %s: %v", q(tmpl), err)
+				}
+				if crashRe.MatchString(stderr) {
+					return fmt.Errorf("rare expression crashed (exit %d) on template %s data %s:\n%s", code, q(tmpl), qs(c0.Groups), pbt.Trunc(stderr, 1500))
+				}
+				c.Obs.Label(true, "cli:expression")
+				c.Obs.Label(code != 0, "cli:expression-nonzero-exit")
+			} else {
+				pbt.Exclude("cli:size-request-beyond-budget")
 			}
-			c.Obs.Label(true, "cli:expression")
-			c.Obs.Label(code != 0, "cli:expression-nonzero-exit")
 		} else {
 			pbt.Exclude("cli:data-not-an-argv-string")
 		}
 	}
-	// 2. rare filter -e over one line per context (groups TAB-separated; the
-	// match is the whole line, so {0} is the line and {1}.. the fields)
+	// 2. rare filter -e over one line per context: the fields are TAB-separated,
+	// the regex captures the first four ({1}..{4}, the third also as {k}) and
+	// {0} is what it matched
 	var lines strings.Builder
-	for _, cj := range c.Contexts {
-		for i, gv := range cj.Groups {
-			if i > 0 {
-				lines.WriteByte('\t')
-			}
-			lines.WriteString(strings.NewReplacer("\n", " ", "\t", " ", "\r", " ").Replace(string(gv)))
+	var toolCtx []CtxJ
+	clean := strings.NewReplacer("\n", " ", "\t", " ", "\r", " ")
+	for i, cj := range c.Contexts {
+		var fields []string
+		for _, gv := range cj.Groups {
+			fields = append(fields, clean.Replace(string(gv)))
 		}
+		lines.WriteString(strings.Join(fields, "\t"))
 		lines.WriteByte('\n')
+		m := min(len(fields), 4)
+		g := []string{strings.Join(fields[:m], "\t"), "", "", "", ""}
+		copy(g[1:], fields[:m])
+		toolCtx = append(toolCtx, CtxJ{Groups: pbt.SS(g), NameErr: true, Keys: []KVJ{{"k", pbt.S(g[3])}, {"src", "<stdin>"}, {"line", pbt.S(strconv.Itoa(i + 1))},
+			{".", "{}"}, {"#", "{}"}, {".#", "{}"}, {"#.", "{}"}, {"@", pbt.S(strings.Join(g[1:], "\x00"))}}})
+	}
+	run, err := libraryFirst(c, toolCtx)
+	if err != nil {
+		return err
+	}
+	if !run {
+		pbt.Exclude("cli:size-request-beyond-budget")
+		return nil
 	}
 	re := `^([^\t]*)\t?([^\t]*)\t?(?P<k>[^\t]*)\t?([^\t]*)`
 	args := append(append([]string{}, global...), "filter", "-m", re, "-e", tmpl)
@@ -772,7 +928,7 @@ func TestCLI(t *testing.T) {
 	}
 	sp := specGrammar
 	sp.Name = "cli"
-	sp.Rule = "grammar and mutation cases (1:1) that pass the library oracle are replayed through the built rare binary: `rare [--noload --color|--nocolor --nounicode --noformat] expression [--no-optimize] -d .. -k .. TEMPLATE` with the first context and `rare filter -m <4 TAB-separated fields, one named k> -e TEMPLATE` over one line per context; oracle: the process exits by itself and prints no Go panic / fatal-error trace (exit status is not asserted). Cases whose guarded run was clamped, and templates/data that cannot be an argv string (NUL, leading '-'), are left out and counted"
+	sp.Rule = "grammar and mutation cases (1:1) that pass the library oracle are replayed through the built rare binary: `rare [--noload --color|--nocolor --nounicode --noformat] expression [--no-optimize] -d .. -k .. TEMPLATE` with the first context and `rare filter -m <4 TAB-separated fields, one named k> -e TEMPLATE` over one line per context; oracle: the process exits by itself and prints no Go panic / fatal-error trace (exit status is not asserted). before each tool run the library oracle is run on the very match data the tool will build (its group numbering and special keys); tool runs whose library run was clamped, and templates/data that cannot be passed as argv (NUL, leading '-', commas in -d/-k), are left out and counted"
 	sp.Budget = pbt.Budget{Quick: 2400, Thorough: 40000}
 	sp.Watchdog = 150 * time.Second
 	sp.Gen = func(t *rapid.T) Case {
@@ -813,6 +969,53 @@ func FuzzTemplate(f *testing.F) {
 		c := Case{Template: pbt.S(tmpl), Obs: pbt.NewObs(), Origin: "fuzz",
 			Contexts: []CtxJ{{Groups: pbt.SS([]string{g0, g1, g2}), Keys: []KVJ{{"k", pbt.S(g1)}, {"x", pbt.S(g2)}}, NameErr: len(g2)%2 == 1}},
 			Color:    len(g0)%2 == 1, NoUnicode: len(g1)%2 == 1, NoHumanize: len(tmpl)%5 == 0}
+		if err := pbt.WithWatchdog(30*time.Second, func() error { return check(c) }); err != nil {
+			t.Fatalf("%v", err)
+		}
+	})
+}
+
+// valueTemplates: the helpers that hand match data to a parser (dates, JSON
+// paths, fmt verbs, durations, numbers, formula variables, lists). FuzzValues
+// keeps the template fixed and lets the coverage-guided engine work on the
+// match data alone.
+var valueTemplates = []string{
+	"{time {0}}", "{time {0} auto}", "{time {0} cache local}", "{time {0} {1}}", "{time {0} NGINX America/New_York}", "{time {0} RFC3339}", "{time {0} \"2006-01-02 15:04:05.000\"}",
+	"{buckettime {0} d}", "{buckettime {0} n auto}", "{buckettime {0} mo {1}}", "{timeformat {0}}", "{timeformat {0} {1} Europe/Berlin}", "{timeattr {0} yearweek}", "{timeattr {0} week Asia/Kolkata}", "{timeformat {time {0}} RFC1123Z local}",
+	"{duration {0}}", "{durationformat {0}}", "{durationformat {duration {0}}}",
+	"{json {0} {1}}", "{json {1}}", "{json {0} a.b}", "{json {0} {1}|{2}}", "{json {0} \"#({1}).{2}\"}", "{json {0} @pretty:{1}}",
+	"{format {0} {1} {2}}", "{format %{0}s {1}}", "{format \"%[2]*.[1]*f\" {0} {1} {2}}",
+	"{select {0} {1}}", "{substr {0} {1} {2}}", "{@select {0} 1}{@slice {0} 1 2}{@len {0}}", "{@join {@split {0} {1}}}", "{@split {0} ,}", "{@in {0} {@ a b}}",
+	"{@map {0} {sumi {0} {k}}}", "{@reduce {0} {multf {0} {1}}}", "{@filter {0} {gt {0} {k}}}", "{@range {0} {1} {2}}", "{@range {0}}", "{repeat ab {0}}", "{@for {0} {and {lt {1} 9} {isint {0}}} {divi {0} 2}}",
+	"{! [0] + [1] * [2]}", "{! [0] % [1]}", "{! [0] << [1]}", "{! [0] ^ [1]}", "{! round([0]) & [1] | [2]}", "{! k * [0]}", "{! (([0] >= [1]) && ![2]) || [0] == [2]}",
+	"{sumi {0} {1} {2}}", "{multi {0} {1} {2}}", "{divi {0} {1} {2}}", "{modi {0} {1}}", "{divf {0} {1}}", "{pow {0} {1}}", "{ceil {0}}{floor {0}}{round {0} 3}", "{log2 {0}}{ln {0}}{sqrt {0}}",
+	"{hi {0}}{hf {0}}", "{bytesize {0} 2}{bytesizesi {0}}{downscale {0} 1}", "{percent {0} 1 {1} {2}}", "{bucket {0} 10}{bucketrange {0} 7}{expbucket {0}}{clamp {0} -5 5}", "{bar {0} 100 20}{bar {0} 1000000 20 log10}",
+	"{basename {0}}{dirname {0}}{extname {0}}", "{csv {0} {1} {2}}", "{lookup {0} \"a b\nc d\"}", "{upper {0}}{lower {0}}{len {0}}", "{like {0} {1}}{prefix {0} {1}}{suffix {0} {1}}",
+	"{lt {0} {1}}{gte {0} {1}}{eq {0} {1} {2}}", "{if {0} {1} {2}}{unless {0} {1}}{switch {0} {1} {2}}", "{color red {0}}", "{{0}}", "{u_nest {0} {1}}{u_arr {0}}{u_edge {0} {1}}",
+}
+
+func FuzzValues(f *testing.F) {
+	for i := range valueTemplates {
+		fc := fixedContexts[i%len(fixedContexts)]
+		g := append(append([]string{}, fc.Groups...), "", "", "")
+		f.Add(uint8(i), g[0], g[1], g[2])
+	}
+	for i, tm := range times {
+		f.Add(uint8(i%15), tm, tfmts[i%len(tfmts)], "")
+	}
+	for i, jp := range jpaths {
+		f.Add(uint8(18+i%6), jsons[i%len(jsons)], jp, "b")
+	}
+	for _, fm := range formats {
+		f.Add(uint8(24), fm, "5", "x")
+	}
+	f.Fuzz(func(t *testing.T, ti uint8, g0, g1, g2 string) {
+		if len(g0) > 400 || len(g1) > 400 || len(g2) > 400 {
+			return
+		}
+		tmpl := valueTemplates[int(ti)%len(valueTemplates)]
+		c := Case{Template: pbt.S(tmpl), Obs: pbt.NewObs(), Origin: "fuzzvalues",
+			Contexts: []CtxJ{{Groups: pbt.SS([]string{g0, g1, g2}), Keys: []KVJ{{"k", pbt.S(g1)}}}}, Color: len(g0)%2 == 1, NoUnicode: len(g1)%2 == 1}
 		if err := pbt.WithWatchdog(30*time.Second, func() error { return check(c) }); err != nil {
 			t.Fatalf("%v", err)
 		}
